@@ -1,6 +1,6 @@
 #!/bin/bash
 # Build the simulator for one flavour from /repo's *current working tree*.
-# usage: build.sh <plain|asan|long|vblas|omp> ; prints the build directory on stdout.
+# usage: build.sh <plain|asan|long|lasan|vblas|omp> ; prints the build directory on stdout.
 set -e
 FLAV=${1:-plain}
 REPO=${VERIF_REPO:-/repo}
@@ -11,6 +11,7 @@ if [ "$FLAV" = omp ]; then COMMON="$COMMON -D__OPENMP"; else COMMON="$COMMON -D_
 case $FLAV in
   plain) LIBF="-O1 $COMMON"; HF="-O2 $COMMON"; LDF="" ;;
   asan)  LIBF="-O1 $COMMON -fsanitize=address,alignment,null -fno-sanitize-recover=all"; HF="-O1 $COMMON -fsanitize=address"; LDF="-fsanitize=address,alignment,null" ;;
+  lasan) LIBF="-O1 $COMMON -D_LONGINT -fsanitize=address,alignment,null -fno-sanitize-recover=all"; HF="-O1 $COMMON -D_LONGINT -fsanitize=address"; LDF="-fsanitize=address,alignment,null" ;;   # 64-bit indices under ASan
   long)  LIBF="-O1 $COMMON -D_LONGINT"; HF="-O2 $COMMON -D_LONGINT"; LDF="" ;;
   omp)   LIBF="-O1 $COMMON -fopenmp"; HF="-O2 $COMMON -DSIM_OMP"; LDF="" ;;   # libgomp is NOT linked: sim.cc provides the five GOMP entry points
   vblas) LIBF="-O1 $COMMON -DUSE_VENDOR_BLAS"; HF="-O2 $COMMON -DSIM_VBLAS"; LDF="" ;;
